@@ -63,7 +63,7 @@ def gen_molecule(rnd, n, shape, cfg):
             if u != v:
                 edges.append((u, v))
     atoms = []
-    resid = rnd.choice([1, 1, 1, -5, 995, 9995, cfg.get('resid_start', 1)])
+    resid = rnd.choice([1, 1, 0, -5, 995, 9995, cfg.get('resid_start', 1)])
     chain = rnd.choice(['A', 'B', '', 'Z', 'AB'] if cfg.get('wild') else ['A', 'B', '', 'Z'])
     for i, k in enumerate(keys):
         if rnd.random() < 0.25:
